@@ -263,6 +263,16 @@ func (c *ControlChannel) Recv(ns, nr uint16, now time.Time) (accept bool, err er
 	return true, nil
 }
 
+// RecvZLB processes a Zero-Length-Body acknowledgement. A ZLB only
+// carries the peer's Nr: it acknowledges our outstanding messages and
+// nothing else. Per RFC 2661 §5.8 a ZLB does not consume a sequence
+// number (the next real message from the peer reuses the ZLB's Ns) and
+// is itself never acknowledged, so Nr is left untouched and no ZLB is
+// scheduled in response.
+func (c *ControlChannel) RecvZLB(nr uint16, now time.Time) {
+	c.ackThrough(nr, now)
+}
+
 // ackThrough removes all queued messages with ns < ackNr from the
 // queue and grows the congestion window per slow-start rules. The
 // retransmit timer is recomputed.
